@@ -429,6 +429,8 @@ class Controller:
                 self.plan_exc = thrown
 
     def _resp(self, msg):
+        if msg is None:
+            return None
         self.nresp += 1
         r = f"resp{self.nresp}"
         self.results.setdefault(id(msg), []).append(r)
@@ -478,6 +480,27 @@ class _Mot:
 
 
 _MOT = _Mot()
+_CTL = {"ctl": None}
+
+
+class _AMot(_Mot):
+    """a motor whose stop() is a coroutine: it finishes when the environment completes its future ('dev-ok' decisions)"""
+    name = "amot"
+
+    def set(self, *a, **k):
+        LEDGER.append(("amot", "set"))
+        return _Status()
+
+    async def stop(self, *, success=False):
+        ctl = _CTL["ctl"]
+        f = ctl.loop.create_future()
+        f.msg = None
+        ctl.devfuts.append(f)
+        await f
+        LEDGER.append(("amot", "stop"))
+
+
+_AMOT = _AMot()
 
 
 LEDGER = []      # (device, call) in call order, for the C06 clauses
@@ -558,7 +581,7 @@ def _callback(name, doc):
 _DEV = _Dev()
 
 MESSAGES = {
-    "set": lambda: Msg("set", _MOT, 1),
+    "set": lambda: Msg("set", _MOT, 1), "set_async": lambda: Msg("set", _AMOT, 1),
     "kickoff": lambda: Msg("kickoff", _FLY), "collect": lambda: Msg("collect", _FLY),
     "monitor": lambda: Msg("monitor", _SIG), "unmonitor": lambda: Msg("unmonitor", _SIG),
     "subscribe": lambda: Msg("subscribe", None, _callback, "all"),
@@ -590,6 +613,7 @@ def run_native(decisions, msgs):
     del _SIG.cbs[:]
     """-> dict(calls=[(name, outcome, state after, ...)], docs=[...], diverged=..., log=[...])"""
     ctl = Controller(decisions, msgs)
+    _CTL["ctl"] = ctl
     install_shim(ctl)
     ctl.main_thread = threading.Thread(target=ctl.main, daemon=True)
     ctl.main_thread.start()
@@ -834,7 +858,7 @@ def _violations(obligation, res):
                 return xs[-1] if xs else None
             if "staged during the call has been unstaged" in tag and last("dev", ("stage", "unstage")) == "stage":
                 bad.append(f"{c['call']} ended idle with the device left staged (ledger: {led})")
-            if "told to stop after its last set" in tag and last("mot", ("set", "stop")) == "set":
+            if "told to stop after its last set" in tag and (last("mot", ("set", "stop")) == "set" or last("amot", ("set", "stop")) == "set"):
                 bad.append(f"{c['call']} ended idle without a stop() after the motor's last set (ledger: {led})")
             if "kicked-off flyer has been collected" in tag and last("fly", ("kickoff", "collect")) == "kickoff":
                 bad.append(f"{c['call']} ended idle with a kicked-off flyer that was neither collected nor attempted (ledger: {led})")
